@@ -1,7 +1,7 @@
 #!/bin/bash
 # Silence soak: every quick check at several seeds, from fresh processes. Prints one line per run.
 cd "$(dirname "$0")/.."; mkdir -p out evidence
-SEEDS=${SEEDS:-"2 3 12345 2147483647"}
+SEEDS=${SEEDS:-"1 2 3 4 5 12345 2147483647"}
 PROPS=${PROPS:-"C01 C02 C03 C04 C05 C06 C07 C08 C09 C10 C11 C12 C13 C14 C15 C16 C17 C18 C20"}
 TIER=${TIER:-quick}
 for s in $SEEDS; do
